@@ -110,6 +110,21 @@ def run(ctx):
             dev = np.max(np.abs(got - want)) / scale if got.shape == want.shape else np.inf
             ctx.dev("A(S) vs sum", dev, 1e-10)
             ctx.check("A(S)==sum A(i)", dev < 1e-10, lambda: dict(desc(), subset=s, dev=dev), mechanism="partial sum")
+        # the empty selection (no chain / no resonance selected) is the empty partial sum: amplitude and density vanish
+        try:
+            got0 = tensor([])
+            amp.set_used_res([])
+            idx0 = list(dg.chains_idx)
+            try:
+                dens0 = np.asarray(amp(data))
+            finally:
+                dg.set_used_chains(full)
+            ok0 = float(np.max(np.abs(got0))) == 0.0 and idx0 == [] and float(np.max(np.abs(dens0))) == 0.0
+            ctx.check("A(S)==sum A(i)", ok0, lambda: dict(desc(), subset=[], max_abs_amplitude=float(np.max(np.abs(got0))), chains_after_set_used_res_empty=idx0,
+                                                          max_density=float(np.max(np.abs(dens0)))), mechanism="partial sum (empty selection)")
+        except Exception as e:
+            dg.set_used_chains(full)
+            ctx.violation("A(S)==sum A(i)", ctx.exc_witness(e, subset=[], **desc()), mechanism="empty selection raises")
         # density of the full model equals sum over helicities of |sum_i A_i|^2
         dens = np.asarray(amp(data))
         want_d = np.sum(np.abs(sum(singles)) ** 2, axis=tuple(range(1, singles[0].ndim)))
